@@ -114,3 +114,25 @@ def c16(c):
         exhaustive_subspaces=["all 65536 operand pairs of every drivable form whose operand types are both 8-bit"],
         assumptions=["gcc's accept/reject decides only which forms exist as programs; it is never the oracle",
                      "sandbox-resident operands are placed by raw guest-encoded writes, so values not representable in the guest type are skipped"]))
+
+
+# --------------------------------------------------------------------- C05
+@plan("C05")
+def c05(c):
+    units, runs = [], []
+    for n in ["ilp32", "ilp32f", "wide"]:
+        for g in range(4):
+            nm = "c05_%s_g%d" % (n, g)
+            units.append(dict(name=nm, srcs=[D + "c05_ptrarith.cpp"], build="asan0", defs=EXC + ["CFG=vsbx_" + n, "GROUP=%d" % g]))
+            runs.append(dict(unit=nm, label=nm))
+    return dict(units=units, runs=runs, evidence=dict(
+        level="exploration",
+        rule="case = (operation in {+,-,+=,-=,++,--,[],&[]}, pointee type, base address, index type and wrapper (plain/tainted/tainted_volatile), "
+             "index value) on the ILP32 (MASK and FINDER) and WIDE model backends; oracle = exact target p+/-n*s in 128-bit arithmetic with s "
+             "from an independent guest-size table: inside the 64 KiB region => exact address and no abort, otherwise abort; null base => abort. "
+             "Index values: boundary set around element index / distance to region end / region size / 2^k and 2^k/s (products wrapping 32 and "
+             "64 bits) and random; for selected pointees every n in [-(size/s)-8, size/s+8] from three bases. Distinct = fingerprint of "
+             "(pointee, index type, base offset, n) plus the enumerated ranges.",
+        exhaustive=False,
+        exhaustive_subspaces=["every index n in [-(size/s)-8, size/s+8] for +, - and &[] with a plain 64-bit index from three bases, for the pointees int, long[3], struct PA (quick) plus long, int* (thorough)"],
+        assumptions=["the model backend's membership predicate is exact (both regions compared by range, not by mask)"]))
